@@ -365,13 +365,17 @@ pub fn run(ctx: &mut Ctx) {
     super::replay_corpus(ctx, replay);
     exhaustive(ctx);
     ctx.run_suite(&ScheduleSuite);
+    ctx.run_suite(&super::c19sess::SessionSuite);
+    ctx.run_suite(&super::c19proc::ProcessSuite);
     ctx.assume("while the application waits for completion it holds the Shutdown mutex (as endpoint/src/main.rs does), so registrations and submissions after that point are not part of the model");
-    ctx.assume("session-level wind-down (GOAWAY, flush+FIN) and the process-level ordering in main.rs are outside this primitive-level check");
+    ctx.assume("process level: real time on loopback; a graceful end of a session is recognised by the TLS close_notify (a process that exits or drops the socket sends none)");
 }
 
 pub fn replay(ctx: &mut Ctx, suite: &str, case: &Value) -> bool {
     match suite {
         "primitive-schedules-random" => ctx.replay_suite(&ScheduleSuite, case),
+        "process-shutdown" => ctx.replay_suite(&super::c19proc::ProcessSuite, case),
+        "session-wind-down" => ctx.replay_suite(&super::c19sess::SessionSuite, case),
         "primitive-schedules-exhaustive" => {
             let Ok(c) = serde_json::from_value::<Case>(case.clone()) else { return false };
             ctx.record(suite, &["replayed"], || case.clone());
